@@ -7,6 +7,7 @@ import BiotiteModel.Proofs.C09Grow
 import BiotiteModel.Proofs.C09Abut
 import BiotiteModel.Proofs.C09RegionAff
 import BiotiteModel.Proofs.C09SlackAff
+import BiotiteModel.Proofs.C09Rejects
 import BiotiteModel.Proofs.C08Prefix
 import BiotiteModel.Props.C08
 import BiotiteModel.Gen.C09
@@ -233,6 +234,169 @@ theorem C09_bandSetup_full (a b : Seq) (M : Mat) (band : Int × Int) (hn : 0 < a
     omega
   simp only [c1, c2, if_false]
   congr 2 <;> omega
+
+/-! ## Refusals happen exactly where the documented guards say -/
+
+/-- `align_banded` (model): `ValueError` exactly for a positive gap penalty, `max_number < 1`, or a band the setup
+refuses (no overlap with the table / width 0 after cropping); otherwise a score is returned. -/
+theorem C09_banded_rejects (a b : Seq) (M : Mat) (ms : Int) (gap : Gap) (loc : Bool) (band : Int × Int) (mx : Int) :
+    (bandedScore a b M ms gap loc band mx = .error .valueError ↔
+      (gap.go > 0 ∨ gap.ge > 0 ∨ mx < 1 ∨ bandSetup a b M band = .error .valueError)) ∧
+    (bandedScore a b M ms gap loc band mx = .error .valueError ∨ ∃ v, bandedScore a b M ms gap loc band mx = .ok v) := by
+  have hs : bandSetup a b M band = .error .valueError ∨ ∃ s, bandSetup a b M band = .ok s := by
+    unfold bandSetup
+    simp only []
+    repeat' split
+    all_goals first | (left; rfl) | (right; exact ⟨_, rfl⟩)
+  unfold bandedScore
+  by_cases h1 : gap.go > 0 ∨ gap.ge > 0
+  · simp only [h1, if_true, true_iff, true_or]
+    exact ⟨by rcases h1 with h | h <;> simp [h], trivial⟩
+  · by_cases h2 : mx < 1
+    · simp only [h1, h2, if_true, if_false, true_iff, true_or, or_true]
+      exact ⟨trivial, trivial⟩
+    · have h1a : ¬ gap.go > 0 := fun h => h1 (Or.inl h)
+      have h1b : ¬ gap.ge > 0 := fun h => h1 (Or.inr h)
+      simp only [h1, h2, if_false, h1a, h1b, false_or]
+      rcases hs with hs | ⟨st, hs⟩
+      · simp [hs]
+      · rw [hs]
+        cases gap <;> simp
+
+/-- the band the setup refuses, for `len(seq1) ≤ len(seq2)` (no swap): no overlap, or nothing left after cropping -/
+theorem C09_bandSetup_rejects (a b : Seq) (M : Mat) (band : Int × Int) (hab : a.length ≤ b.length) :
+    bandSetup a b M band = .error .valueError ↔
+      ((a.length : Int) + max band.1 band.2 ≤ 0 ∨ min band.1 band.2 ≥ (b.length : Int) ∨
+        min (max band.1 band.2) ((b.length : Int) - 1) - max (min band.1 band.2) (-(a.length : Int) + 1) + 1 < 1) := by
+  have hsw : ¬ (b.length < a.length) := by omega
+  simp only [bandSetup, hsw, decide_false, Bool.false_eq_true, if_false]
+  by_cases c1 : (a.length : Int) + max band.1 band.2 ≤ 0 ∨ min band.1 band.2 ≥ (b.length : Int)
+  · simp only [c1, if_true, true_iff]
+    rcases c1 with h | h
+    · left; exact h
+    · right; left; exact h
+  · simp only [c1, if_false]
+    have n1 : ¬ ((a.length : Int) + max band.1 band.2 ≤ 0) := fun h => c1 (Or.inl h)
+    have n2 : ¬ (min band.1 band.2 ≥ (b.length : Int)) := fun h => c1 (Or.inr h)
+    simp only [n1, n2, false_or]
+    split <;> simp [*]
+
+/-- `align_local_gapped` (model), in the order of the code's checks: `ValueError` for a non-negative penalty,
+`max_number < 1`, `max_table_size ≤ 0`; `IndexError` for a seed outside the sequences (in particular for an empty
+sequence); `ValueError` for a negative threshold; and WITHOUT a table limit every other call returns a score. -/
+theorem C09_gapped_rejects (so : Bool) (a b : Seq) (M : Mat) (gap : Gap) (seed : Int × Int) (thr : Int) (dir : XDir)
+    (mx : Int) (mts : Option Int) (is io gf : Nat) :
+    let r := gappedScore so a b M gap seed thr dir mx mts is io gf
+    let badGap := gap.go ≥ 0 ∨ gap.ge ≥ 0
+    let badLim := ∃ l, mts = some l ∧ l ≤ 0
+    let badSeed := seed.1 < 0 ∨ seed.2 < 0 ∨ seed.1.toNat ≥ a.length ∨ seed.2.toNat ≥ b.length
+    (badGap → r = .error .valueError) ∧
+    (¬ badGap → mx < 1 → r = .error .valueError) ∧
+    (¬ badGap → ¬ mx < 1 → badLim → r = .error .valueError) ∧
+    (¬ badGap → ¬ mx < 1 → ¬ badLim → badSeed → r = .error .indexError) ∧
+    (¬ badGap → ¬ mx < 1 → ¬ badLim → ¬ badSeed → thr < 0 → r = .error .valueError) ∧
+    (¬ badGap → ¬ mx < 1 → ¬ badSeed → ¬ thr < 0 → mts = none → ∃ v, r = .ok v) := by
+  intro r badGap badLim badSeed
+  refine ⟨?_, ?_, ?_, ?_, ?_, ?_⟩
+  · intro h; simp only [r, gappedScore, badGap] at h ⊢; simp only [h, if_true]
+  · intro h1 h2; simp only [r, gappedScore, badGap] at h1 ⊢; simp only [h1, h2, if_true, if_false]
+  · intro h1 h2 ⟨l, hl, hl0⟩
+    simp only [r, gappedScore, badGap] at h1 ⊢
+    subst hl
+    simp only [h1, h2, hl0, decide_true, if_true, if_false]
+  · intro h1 h2 h3 h4
+    simp only [r, gappedScore, badGap, badLim, badSeed] at h1 h3 h4 ⊢
+    have key : ∀ (lim : Bool), lim = false →
+        (if gap.go ≥ 0 ∨ gap.ge ≥ 0 then (Except.error Err.valueError : Except Err Int) else
+          if mx < 1 then .error .valueError else if lim = true then .error .valueError else
+          if seed.1 < 0 ∨ seed.2 < 0 then .error .indexError else
+          if seed.1.toNat ≥ a.length ∨ seed.2.toNat ≥ b.length then .error .indexError else .ok 0) = .error .indexError := by
+      intro lim hl
+      subst hl
+      simp only [h1, h2, Bool.false_eq_true, if_false]
+      by_cases hneg : seed.1 < 0 ∨ seed.2 < 0
+      · simp only [hneg, if_true]
+      · have : seed.1.toNat ≥ a.length ∨ seed.2.toNat ≥ b.length := by
+          rcases h4 with h | h | h | h
+          · exact absurd (Or.inl h) hneg
+          · exact absurd (Or.inr h) hneg
+          · exact Or.inl h
+          · exact Or.inr h
+        simp only [hneg, this, if_true, if_false]
+    cases mts with
+    | none =>
+      have := key false rfl
+      simp only [h1, h2, Bool.false_eq_true, if_false] at this ⊢
+      split at this
+      · simp only [*, if_true]
+      · split at this
+        · simp only [*, if_true, if_false]
+        · cases this
+    | some l =>
+      have hl : ¬ l ≤ 0 := fun hl => h3 ⟨l, rfl, hl⟩
+      have := key false rfl
+      simp only [h1, h2, hl, decide_false, Bool.false_eq_true, if_false] at this ⊢
+      split at this
+      · simp only [*, if_true]
+      · split at this
+        · simp only [*, if_true, if_false]
+        · cases this
+  · intro h1 h2 h3 h4 h5
+    simp only [r, gappedScore, badGap, badLim, badSeed] at h1 h3 h4 ⊢
+    have n1 : ¬ (seed.1 < 0 ∨ seed.2 < 0) := fun h => h4 (by rcases h with h | h; exact Or.inl h; exact Or.inr (Or.inl h))
+    have n2 : ¬ (seed.1.toNat ≥ a.length ∨ seed.2.toNat ≥ b.length) :=
+      fun h => h4 (by rcases h with h | h; exact Or.inr (Or.inr (Or.inl h)); exact Or.inr (Or.inr (Or.inr h)))
+    cases mts with
+    | none => simp only [h1, h2, n1, n2, h5, Bool.false_eq_true, if_false, if_true]
+    | some l =>
+      have hl : ¬ l ≤ 0 := fun hl => h3 ⟨l, rfl, hl⟩
+      simp only [h1, h2, hl, decide_false, n1, n2, h5, Bool.false_eq_true, if_false, if_true]
+  · intro h1 h2 h4 h5 hm
+    simp only [r, gappedScore, badGap, badSeed] at h1 h4 ⊢
+    subst hm
+    have n1 : ¬ (seed.1 < 0 ∨ seed.2 < 0) := fun h => h4 (by rcases h with h | h; exact Or.inl h; exact Or.inr (Or.inl h))
+    have n2 : ¬ (seed.1.toNat ≥ a.length ∨ seed.2.toNat ≥ b.length) :=
+      fun h => h4 (by rcases h with h | h; exact Or.inr (Or.inr (Or.inl h)); exact Or.inr (Or.inr (Or.inr h)))
+    simp only [h1, h2, n1, n2, h5, Bool.false_eq_true, if_false]
+    have hu : ∀ (c : Bool) x y, ∃ v, (if c = true then regionAlign so M gap thr x y none is io gf else .ok 0) = .ok v := by
+      intro c x y
+      cases c with
+      | true => simpa using regionAlign_none_ok so M gap thr x y is io gf
+      | false => exact ⟨0, by simp⟩
+    obtain ⟨u, hu'⟩ := hu (dirUp dir && decide (seed.1.toNat ≠ 0) && decide (seed.2.toNat ≠ 0))
+      (a.take seed.1.toNat).reverse (b.take seed.2.toNat).reverse
+    obtain ⟨d, hd'⟩ := hu (dirDown dir) (a.drop (seed.1.toNat + 1)) (b.drop (seed.2.toNat + 1))
+    rw [hu', hd']
+    exact ⟨_, rfl⟩
+
+/-- `align_local_ungapped` (model): `ValueError` for a negative threshold, then `IndexError` for a seed outside the
+sequences (in particular empty sequences), otherwise a score. -/
+theorem C09_ungapped_rejects (a b : Seq) (M : Mat) (seed : Int × Int) (thr : Int) (dir : XDir) :
+    let r := ungappedScore a b M seed thr dir
+    let badSeed := seed.1 < 0 ∨ seed.2 < 0 ∨ seed.1.toNat ≥ a.length ∨ seed.2.toNat ≥ b.length
+    (thr < 0 → r = .error .valueError) ∧ (¬ thr < 0 → badSeed → r = .error .indexError) ∧
+    (¬ thr < 0 → ¬ badSeed → ∃ v, r = .ok v) := by
+  intro r badSeed
+  refine ⟨?_, ?_, ?_⟩
+  · intro h; simp only [r, ungappedScore, ungapped, h, if_true]; rfl
+  · intro h1 h4
+    simp only [r, ungappedScore, ungapped, h1, if_false, badSeed] at h4 ⊢
+    by_cases hneg : seed.1 < 0 ∨ seed.2 < 0
+    · simp only [hneg, if_true]; rfl
+    · have : seed.1.toNat ≥ a.length ∨ seed.2.toNat ≥ b.length := by
+        rcases h4 with h | h | h | h
+        · exact absurd (Or.inl h) hneg
+        · exact absurd (Or.inr h) hneg
+        · exact Or.inl h
+        · exact Or.inr h
+      simp only [hneg, this, if_true, if_false]; rfl
+  · intro h1 h4
+    simp only [badSeed] at h4
+    have n1 : ¬ (seed.1 < 0 ∨ seed.2 < 0) := fun h => h4 (by rcases h with h | h; exact Or.inl h; exact Or.inr (Or.inl h))
+    have n2 : ¬ (seed.1.toNat ≥ a.length ∨ seed.2.toNat ≥ b.length) :=
+      fun h => h4 (by rcases h with h | h; exact Or.inr (Or.inr (Or.inl h)); exact Or.inr (Or.inr (Or.inr h)))
+    simp only [r, ungappedScore, ungapped, h1, n1, n2, if_false]
+    exact ⟨_, rfl⟩
 
 /-! ## Ungapped X-drop extension -/
 
